@@ -118,9 +118,11 @@ def main():
         version=1,
         setup_cmd='cd /verif && ./setup.sh',
         hooks=dict(guard='QUANTITY_VERIF',
-                   enable=('no source patch in /repo: checks import /repo/src through /verif/harness/qvimport.py '
-                           '(recompiles the working tree on every run; true division guarded against the decimalfp '
-                           'defect); the test-suite tracer is PYTHONPATH=/verif/harness QUANTITY_VERIF=1 pytest -p qtrace_pytest'),
+                   enable=('no source patch in /repo: checks import $VERIF_REPO/src (default /repo/src) through '
+                           '/verif/harness/qvimport.py (recompiles the working tree on every run; true division guarded '
+                           'against the decimalfp defect). The tracer for the repository\'s own suite is a pytest plugin: '
+                           'QUANTITY_VERIF=1 QTRACE_FILE=<ndjson> PYTHONPATH=/verif/harness pytest -p qtrace_pytest '
+                           '(wraps the public operators of Quantity/Unit at import; with the variable unset it does nothing)'),
                    baseline_off_cmd=BASE, source_commits=[], add_only=True),
         engines=[dict(name='tlc', path='/usr/local/bin/tlc', serves_properties=sorted(CHECKS),
                       kind_free_text='TLC 1.8 explicit-state model checker: model checking of the TLA+ specs in /verif/spec '
